@@ -58,7 +58,10 @@ type c08Case struct {
 	Post     []c08Op    `json:"post,omitempty"`
 	Clients  [][]c08Op  `json:"clients,omitempty"` // free-running programs
 	Merger   bool       `json:"merger,omitempty"`
-	History  []c08Event `json:"history,omitempty"` // saved with a failing free-running case
+	// free-running: the clients start on a database that has Pre behind it, then (optionally) a Merge, then a restart
+	PreMerge  bool       `json:"preMerge,omitempty"`
+	PreReopen bool       `json:"preReopen,omitempty"`
+	History   []c08Event `json:"history,omitempty"` // saved with a failing free-running case
 }
 
 type c08Event struct {
@@ -593,7 +596,33 @@ func runFree(c *c08Case) (feat map[string]bool, fail *kvh.Fail) {
 	for i := range c.Clients {
 		progs[i] = append([]c08Op(nil), c.Clients[i]...)
 	}
-	r.register(progs...)
+	pre := append([]c08Op(nil), c.Pre...)
+	r.register(append([][]c08Op{pre}, progs...)...)
+	for _, op := range pre {
+		r.exec(0, op)
+	}
+	if len(pre) > 0 {
+		if c.PreMerge {
+			if err := r.db.Merge(); err != nil && !errors.Is(err, kv.ErrMergeFileIDConflict) && !errors.Is(err, kv.ErrMergeRatioUnreached) {
+				return feat, &kvh.Fail{Sig: "merge-error", Msg: fmt.Sprintf("Merge() before the clients start = %v", err)}
+			}
+		}
+		if c.PreReopen {
+			// the clients' first reads hit files this process has opened but not yet read
+			if err := r.db.Close(); err != nil {
+				return feat, &kvh.Fail{Sig: "close-error", Msg: err.Error()}
+			}
+			r.db, err = kv.Open(c.Opt.KV(dir))
+			if err != nil {
+				r.db = nil
+				return feat, &kvh.Fail{Sig: "open-error", Msg: "Open after the prehistory: " + err.Error()}
+			}
+			feat["clients-start-on-restarted-db"] = true
+			if c.PreMerge {
+				feat["clients-start-on-adopted-merge"] = true
+			}
+		}
+	}
 	var wg sync.WaitGroup
 	var panicked atomic.Value
 	start := make(chan struct{})
@@ -682,6 +711,21 @@ func c08FreeRunning(t *rapid.T, st *kvh.Stats) {
 		c.Clients = append(c.Clients, prog)
 	}
 	c.Merger = kvh.Pct(t, 30, "merger")
+	if kvh.Pct(t, 35, "prehistory") {
+		for i, n := 0, 4+kvh.U(t, 20, "npre"); i < n; i++ {
+			op := genC08Op(t, keys, "pre")
+			if op.K == "get" {
+				op.K = "put"
+				op.VLen = 1 + kvh.U(t, 120, "prevlen")
+			}
+			c.Pre = append(c.Pre, op)
+		}
+		c.PreMerge = kvh.Pct(t, 60, "premerge")
+		c.PreReopen = kvh.Pct(t, 85, "prereopen")
+		if kvh.Pct(t, 40, "premmap") {
+			c.Opt.IO = 1
+		}
+	}
 	kvh.PersistCase("C08", c)
 	feat, f := runFree(c)
 	kvh.ClearPersisted("C08")
